@@ -605,3 +605,48 @@ Fixpoint sess_run (fl : flags) (s : sess) (es : list sev) : sess :=
   | [] => s
   | e :: rest => sess_run fl (fst (sess_step fl s e)) rest
   end.
+
+(* ---- the session around IPv6CP (internal/pppoe/session.go startNCP, IPv6 part) --------------------
+   startNCP installs the MAC-derived interface identifier (SetInterfaceID) and THEN brings IPv6CP up
+   (Up + Open: our Configure-Request goes out).  What the subscriber sees as "the BNG's identifier" is the
+   one in our last Configure-Request; what ProcessConfReq compares with is local.InterfaceID. *)
+Record v6sess := mkv6s {
+  vs_obj : v6obj;
+  vs_fsm : N;
+  vs_last : list opt;       (* options of our last IPv6CP Configure-Request *)
+  vs_open : bool            (* ipv6cpOpen *)
+}.
+Inductive v6ev :=
+| V6Start (iid : bytes)                                   (* startNCP (first time or on re-authentication) *)
+| V6Req (id : N) (wire : bytes) (oracle : list bytes)     (* the subscriber's Configure-Request *)
+| V6Echo (id : N) (oracle : list bytes)                   (* ... proposing exactly what our last request carried *)
+| V6Ack                                                   (* our last request acknowledged verbatim *)
+| V6Nak (wire : bytes)                                    (* Configure-Nak with our last identifier *)
+| V6Rej (wire : bytes).                                   (* Configure-Reject with our last identifier *)
+
+Definition v6_next (o : v6obj) (acts : list act) (last : list opt) : list opt :=
+  if existsb (fun a => match a with Scr => true | _ => false end) acts then v6_build o else last.
+Definition v6_open (acts : list act) (op : bool) : bool :=
+  fold_left (fun b a => match a with Tlu => true | Tld => false | _ => b end) acts op.
+
+Definition v6sess0 (random_id : bytes) : v6sess :=
+  mkv6s (mkv6obj random_id [] [0;0;0;0;0;0;0;0]%N) 0 [] false.
+
+Definition v6sess_step (s : v6sess) (e : v6ev) : v6sess * list act :=
+  let o := vs_obj s in
+  let fin (o' : v6obj) (r : list act * N) :=
+    (mkv6s o' (snd r) (v6_next o' (fst r) (vs_last s)) (v6_open (fst r) (vs_open s)), fst r) in
+  let req id wire orc :=
+    let '(a, st', p') := ipv6cp_input (vo_local o) (vs_fsm s) (vo_peer o) orc id wire in
+    fin (mkv6obj (vo_local o) (vo_rej o) p') (a, st') in
+  match e with
+  | V6Start m => fin (mkv6obj m (vo_rej o) (vo_peer o)) (up_open (vs_fsm s))
+  | V6Req id wire orc => req id wire orc
+  | V6Echo id orc => req id (serialize_options (vs_last s)) orc
+  | V6Ack => fin (fold_left v6_learn_opt (vs_last s) o) (rca_event (vs_fsm s) 0)
+  | V6Nak w => fin (fold_left v6_learn_opt (parse_lenient w) o) (rcn_event (vs_fsm s) 0)
+  | V6Rej w => fin (mkv6obj (vo_local o) (map o_type (parse_lenient w) ++ vo_rej o) (vo_peer o))
+                   (rcn_event (vs_fsm s) 0)
+  end.
+Fixpoint v6sess_run (s : v6sess) (es : list v6ev) : v6sess :=
+  match es with [] => s | e :: rest => v6sess_run (fst (v6sess_step s e)) rest end.
